@@ -91,7 +91,39 @@ CHECKS = {
         "technique": "abstract interpretation of assembly / IR in a GF(2) bit-provenance term domain, one symbolic loop iteration + structural induction premises; effect and ABI pairing rules",
         "category": "translation_validation",
     },
+    "C01": {
+        "text": "Premises of the block-wise round-trip induction, discharged for every path class (prefix, generic loop iteration, residues 0..3, refusal) of the six AEAD functions and the nine "
+                "setup/absorb/generate_tag helpers by symbolic path summaries in the GF(2) term domain (permutation uninterpreted, fresh symbols at the loop head, no unrolling): the only length store is "
+                "mlen+8 / clen-8; encrypt and decrypt unpack the key and call setup/absorb identically; each block/tail equals the reference block transformer bit for bit (so a 0x7F mask, a sign "
+                "extension, a wrong frame constant, round count or length injection is refuted); the reference decrypt block provably inverts the reference encrypt block and leaves the same state; "
+                "cursors and remaining length advance in lock-step, exactly [0,r) is read and written, the tag sits at cursor+r, and every input byte is loaded before the same output offset is stored.",
+        "note": "Induction itself is the argument in DESIGN.md. N0 IR of clang 14; alignment/endianness independence is C06's R-BYTEWISE; permutation purity is C05/C19.",
+        "technique": "symbolic path summaries in a GF(2) bit-provenance term domain vs a reference model, per path class; affine cursor tracking",
+    },
+    "C02": {
+        "text": "Construction conformance on every path: the same per-path-class summaries compared with the TinyJAMBU v2 reference (frame bits 0x10/0x30/0x50/0x70, 640-step and 1024/1152/1280-step "
+                "permutations, key words NOT LE32, nonce words, partial-block length injection into word 1, tag = two squeezes of word 2) for setup_N, absorb_N, generate_tag_N and the six AEAD "
+                "functions, plus the three C permutation backends against the bit-serial NLFSR for every round count (C05's STEP/SCHED). Pins every absorbed and emitted bit to the specification's formula.",
+        "note": "No value is computed: agreement with other implementations follows only given that tj/mode.py and tj/asmx.py transcribe the specification correctly (trusted). gcc and object-level "
+                "equivalence of shared/static builds not covered; alignment/endianness independence is C06's.",
+        "technique": "symbolic path summaries in a GF(2) term domain vs a reference model of the mode; permutation by abstract interpretation of one loop iteration",
+    },
+    "C08": {
+        "text": "As C01/C03 for the six SIV functions: pass 1 (setup 0x90, absorb AD 0x30/5, absorb plaintext 0x50/keyed, tag at c+mlen), second-pass nonce = npub[0..3] || tag with setup 0xB0 "
+                "(decrypt: the bytes at c+clen-8, copied before any plaintext store), pass 2 per path class (frame 0xD0, output = input xor word 2 restricted to r bytes, nothing absorbed), "
+                "encrypt/decrypt duality of the reference, lock-step/coverage/tag position/load-before-store, decrypt's MAC recomputation over the recovered plaintext and C03's guard / must-pass / "
+                "argument rules on the three SIV decrypt functions.",
+        "note": "Values not computed; tag sensitivity is a cipher property; check_tag itself is decided under C03/C04.",
+        "technique": "symbolic path summaries in a GF(2) term domain vs a reference model; finite-class execution for the length guard",
+    },
+    "C09": {
+        "text": "Construction conformance of the six SIV functions with the documented two-pass construction (constants 0x90/0xB0/0xD0, pass 2 never absorbs, nonce' composition) at bit level on "
+                "every path class, and the dependency shape this implies: the pass-2 state derives from setup(key, npub[0..3] || tag) only, so the keystream depends on key, four nonce bytes and tag; "
+                "the message enters the body only through the final xor at the same offset.",
+        "note": "NOT decided: 'different tags give unrelated keystreams / XOR of bodies differs from XOR of plaintexts beyond chance' - a cryptographic property of the permutation, declined.",
+        "technique": "symbolic path summaries in a GF(2) term domain vs the documented construction",
+    },
 }
 
 _NB = "not built yet in this session (design exists in DESIGN.md; claimed only once its check fires on broken variants and is silent on the unchanged tree)"
-NOT_APPLICABLE = {p: _NB for p in ["C01", "C02", "C06", "C08", "C09", "C10", "C11", "C12", "C13", "C14", "C15", ]}
+NOT_APPLICABLE = {p: _NB for p in ["C06", "C10", "C11", "C12", "C13", "C14", "C15", ]}
